@@ -240,15 +240,19 @@ ES256, RS256) that the authenticator supports -/
 def expectedAlg (cfg : Cfg) (algs : List Int) : Option Int :=
   (if algs.isEmpty then [-7, -257] else algs).find? (fun a => cfg.algs.any (· == a))
 
-def c02_register (cfg : Cfg) (origin : RpId.Origin) (originStr : String) (req : RegisterReq) (mode : ClientDataMode)
+def c02_register (cfg : Cfg) (kind : StoreKind) (origin : RpId.Origin) (originStr : String) (req : RegisterReq) (mode : ClientDataMode)
     (draws : Option Draws) (pre : List PkSnap) (o : CObs RegOk) : Option String :=
   let _ := mode
   let saves := o.trace.filter Auth.Spec.isEffect
   match o.res with
   | .panic => some "panic"
-  | .err _ =>
+  | .err name =>
     -- a failed registration creates nothing
-    if !saves.isEmpty || o.store != pre then some "failed-registration-changed-the-store" else none
+    if !saves.isEmpty || o.store != pre then some "failed-registration-changed-the-store"
+    -- only a list with no supported entry fails for the algorithm
+    else if name == s!"AuthenticatorError({eUnsupportedAlgorithm})" && (expectedAlg cfg req.algs).isSome then
+      some "refused-as-unsupported-algorithm-although-a-listed-algorithm-is-supported"
+    else none
   | .ok r =>
     match expectedAlg cfg req.algs with
     | none => some "registered-although-no-listed-algorithm-is-supported"
@@ -271,6 +275,7 @@ def c02_register (cfg : Cfg) (origin : RpId.Origin) (originStr : String) (req : 
     match v.acd with
     | none => some "no-attested-credential-data"
     | some acd =>
+    if acd.aaguid != cfg.aaguid then some "attested-aaguid-is-not-the-authenticators" else
     if acd.credId != r.rawId then some "attested-credential-id-differs-from-raw-id" else
     if r.id != Base64.encodeUrl r.rawId then some "id-is-not-base64url-of-raw-id" else
     match rpCoseEs256 acd.key with
@@ -281,10 +286,12 @@ def c02_register (cfg : Cfg) (origin : RpId.Origin) (originStr : String) (req : 
     if r.alg != alg || alg != -7 then some "reported-algorithm-not-the-first-supported-entry" else
     -- exactly one credential added, with the matching private key, the effective RP ID, a fresh id of the configured length
     let added := o.store.filter (fun p => !pre.any (fun q => q.credId == p.credId))
-    let kept := pre.all (fun q => o.store.any (fun p => p == q))
+    -- the single-slot store holds the newest credential only; every other store keeps what it held
+    let slot := match kind with | .singleSlot => true | _ => false
+    let kept := slot || pre.all (fun q => o.store.any (fun p => p == q))
     match added with
     | [p] =>
-      if !kept || o.store.length != pre.length + 1 then some "store-not-previous-plus-one-credential" else
+      if !kept || o.store.length != (if slot then 1 else pre.length + 1) then some "store-not-previous-plus-one-credential" else
       if p.credId != r.rawId then some "stored-credential-id-differs-from-returned-id" else
       if p.rpId != rp then some "stored-credential-not-bound-to-effective-rp-id" else
       if p.x != x then some "stored-key-differs-from-returned-public-key" else
@@ -336,6 +343,7 @@ def c03_authenticate (uv : UvCfg) (origin : RpId.Origin) (originStr : String) (r
     | none => some "credential-id-names-no-registered-credential"
     | some p =>
     if p.rpId != rp then some "credential-registered-for-another-rp" else
+    if !(eligible pre rp req.allow).any (fun c => c.credId == r.rawId) then some "signature-produced-with-a-credential-the-allow-list-does-not-name" else
     if r.userHandle != p.userHandle then some "user-handle-is-not-the-stored-one" else
     let hash := match mode with | .customHash h => h | _ => Sha256.sha256 r.clientDataJson
     if !P256.keyPairMatches p.key.d p.key.x p.key.y then some "stored-key-pair-inconsistent" else
@@ -461,7 +469,7 @@ def verdictReg (prop : String) (cfg : Cfg) (kind : StoreKind) (uv : UvCfg) (orig
   | none => "fail:unparsable-or-crashed"
   | some o =>
     if prop = "C11" then (match c11_register kind uv req o with | none => "ok" | some f => "fail:" ++ f)
-    else if prop = "C02" then (match c02_register cfg origin originStr req mode draws pre o with | none => "ok" | some f => "fail:" ++ f)
+    else if prop = "C02" then (match c02_register cfg kind origin originStr req mode draws pre o with | none => "ok" | some f => "fail:" ++ f)
     else if prop = "C09" then (match c09_register cfg req pre o with | none => "ok" | some f => "fail:" ++ f)
     else "na"
 
